@@ -3,7 +3,7 @@ CONSTANTS
   MinProms = 0
   MaxProms = 2
   Layouts = {0, 1, 2, 3, 4}
-  PreIds = {0, 1}
+  PreIds = {0, 1, 2}
   Pairs = FALSE
   Commands = {"lint", "ci"}
 CHECK_DEADLOCK FALSE
